@@ -66,8 +66,8 @@ theorem recvPrelude_has_O (fam a f) (h : checksOwn fam a f = true) : Chk.O ∈ r
   · split <;> simp [h]
 
 /-- the senders-gone test a blocking receive form performs after finding the buffer empty -/
-def goneFor (fl : Flavour) (s : St) (f : Form) (hd : Handle) : Bool :=
-  sendersGone s || (fl.fam == .sb && hd.isAsync && (f == .recvBatch || f == .recvBatchMut) && s.pd)
+def goneFor (_fl : Flavour) (s : St) (_f : Form) (_hd : Handle) : Bool :=
+  sendersGone s
 
 theorem recvUnit_pos (fl cfg f n) (hw : recvWant f n [] > 0) : recvUnit fl cfg f n [] > 0 := by
   unfold recvUnit; split <;> omega
@@ -93,7 +93,7 @@ theorem recvStep_none_iff (fl : Flavour) (cfg : Cfg) (s : St) (t : Nat) (f : For
     split
     · rename_i hg; simp [hg]
     · rename_i hg
-      have hg' : (sendersGone s || fl.fam == Fam.sb && hd.isAsync && (f == Form.recvBatch || f == Form.recvBatchMut) && s.pd) = false := by
+      have hg' : sendersGone s = false := by
         simpa using hg
       cases f <;> simp_all [Form.blocking, Form.isSend]
   · have hk' : ¬ recvK fl cfg s f n [] = 0 := fun h => hb (hk.mp h)
@@ -133,8 +133,7 @@ theorem runPS_brecv_stuck (fl : Flavour) (cfg : Cfg) (t : Nat) (f : Form) (h : H
         have hg := this.2.1
         unfold goneFor sendersGone at hg ⊢
         have hsc : (mbFlush fl s).sc = s.sc := by simpa [St.shell] using congrArg Shell.sc d
-        have hpd : (mbFlush fl s).pd = s.pd := by simpa [St.shell] using congrArg Shell.pd d
-        rw [hsc, hpd]; exact hg
+        rw [hsc]; exact hg
       · cases hm
 
 /-- a buffered send form that stops in its early checks fails Closed with everything handed back (or
@@ -205,7 +204,7 @@ theorem firstHit_recv_own {l e o c} (h : firstHit l e o false = some c) (hc : c 
 buffer is empty and the senders are gone -/
 theorem recvStep_seq {fl : Flavour} {s t f hd n s' p'} (hw : recvWant f n [] > 0)
     (hs : recvStep fl seqCfg s t f hd n [] = some (s', p')) :
-    ∃ o, p' = .fin o ∧ (o.tag = .disconnected → s.buf = [] ∧ (s.sc = 0 ∨ s.pd = true)) := by
+    ∃ o, p' = .fin o ∧ (o.tag = .disconnected → s.buf = [] ∧ s.sc = 0) := by
   unfold recvStep at hs
   have hk : recvK fl seqCfg s f n [] = 0 → s.buf = [] := by
     unfold recvK recvUnit
@@ -222,10 +221,7 @@ theorem recvStep_seq {fl : Flavour} {s t f hd n s' p'} (hw : recvWant f n [] > 0
     · rename_i hg
       cases hs
       refine ⟨_, rfl, fun _ => ⟨hk h0, ?_⟩⟩
-      simp only [sendersGone, Bool.or_eq_true, beq_iff_eq, Bool.and_eq_true] at hg
-      rcases hg with hg | hg
-      · exact Or.inl hg
-      · exact Or.inr hg.2
+      simpa [sendersGone] using hg
     · split at hs <;> first | (cases hs; exact ⟨_, rfl, fun h => by simp at h⟩) | cases hs
   · split at hs
     · cases hs; exact ⟨_, rfl, fun h => by simp at h⟩
@@ -233,14 +229,70 @@ theorem recvStep_seq {fl : Flavour} {s t f hd n s' p'} (hw : recvWant f n [] > 0
       exfalso; apply hnot; right
       unfold recvUnit; simp [seqCfg]
 
+/-- In EVERY configuration (the concurrent specification included) a receive step that has taken nothing yet
+answers `Disconnected` only with the buffer empty and the sender COUNT zero: no receive form looks at
+`producer_dropped` (`pd`), so the first half of a two-step spsc close is invisible to the receiver (N6 fixed). -/
+theorem recvStep_disconnected_any {fl : Flavour} {cfg : Cfg} {s t f hd n s' o} (hw : recvWant f n [] > 0)
+    (hs : recvStep fl cfg s t f hd n [] = some (s', .fin o)) (ht : o.tag = .disconnected) :
+    s.buf = [] ∧ s.sc = 0 := by
+  have hu := recvUnit_pos fl cfg f n hw
+  unfold recvStep at hs
+  split at hs
+  · rename_i h0
+    have hb : s.buf = [] := by
+      unfold recvK at h0
+      have : s.buf.length = 0 := by omega
+      exact length_eq_zero_iff.mp this
+    simp only [isEmpty_nil, if_true] at hs
+    unfold emptyOutcome at hs
+    simp only [] at hs
+    split at hs
+    · rename_i hg
+      exact ⟨hb, by simpa [sendersGone] using hg⟩
+    · split at hs <;> first | (cases hs; simp at ht) | cases hs
+  · split at hs
+    · cases hs; simp at ht
+    · cases hs
+
+/-- start of a receive form on a buffered channel, any configuration: `Disconnected` on an open handle means
+the buffer is empty and the sender count is zero -/
+theorem startRecv_disconnected_any {fl : Flavour} (hrv : fl.fam ≠ .rv) (hos : fl.fam ≠ .os) (cfg : Cfg) (s : St)
+    (t : Nat) (f : Form) (h : HName) (n : Nat) (hd : Handle) (hf : findH s.hs h = some hd)
+    (hopen : hd.closed = false) {s' o} (hs : startRecv fl cfg s t f h n = (s', .fin o))
+    (ht : o.tag = .disconnected) : s.buf = [] ∧ s.sc = 0 := by
+  unfold startRecv at hs
+  simp only [hf] at hs
+  split at hs
+  · cases hs; simp at ht
+  · split at hs
+    · cases hs; simp at ht
+    · rename_i c hc
+      have := firstHit_recv_own hc (by intro e; subst e; simp_all)
+      simp [hopen] at this
+    · rename_i hnone
+      have hw : recvWant f n [] > 0 := by
+        unfold recvWant
+        split
+        · rename_i hb
+          have := firstHit_none_of_E hnone (recvPrelude_has_E _ _ _ hb)
+          have : n ≠ 0 := by simpa using this
+          simp; omega
+        · omega
+      split at hs
+      · rename_i r hr
+        obtain ⟨r1, r2⟩ := r
+        cases hs
+        exact recvStep_disconnected_any hw hr ht
+      · cases hs
+
 /-- **`Disconnected` is reported only after the drain**: a receive form on a buffered channel returns
 `Disconnected` only when its own handle was closed by its owner (a checked call site) or the buffer is
-empty and the senders are gone (`sender_count = 0`; for the spsc async batch forms also
-`producer_dropped`). -/
+empty and the senders are gone (`sender_count = 0` — every receive form tests the count; the spsc async batch
+forms tested `producer_dropped` until fix 23f212c, finding N6). -/
 theorem stepOp_recv_disconnected {fl : Flavour} (hrv : fl.fam ≠ .rv) (hos : fl.fam ≠ .os) (s : St) (f : Form)
     (h : HName) (n : Nat) (hd : Handle) (hf : findH s.hs h = some hd)
     (ht : (stepOp fl s (.rcv f h n)).2.tag = .disconnected) :
-    hd.closed = true ∨ (s.buf = [] ∧ (s.sc = 0 ∨ s.pd = true)) := by
+    hd.closed = true ∨ (s.buf = [] ∧ s.sc = 0) := by
   unfold stepOp stepOpS at ht
   unfold runPS at ht
   simp only [microDet, seqCfg, start] at ht
@@ -285,8 +337,7 @@ theorem stepOp_recv_disconnected {fl : Flavour} (hrv : fl.fam ≠ .rv) (hos : fl
             have hg := this.2.1
             unfold goneFor sendersGone at hg ⊢
             have hsc : (mbFlush fl s).sc = s.sc := by simpa [St.shell] using congrArg Shell.sc d
-            have hpd : (mbFlush fl s).pd = s.pd := by simpa [St.shell] using congrArg Shell.pd d
-            rw [hsc, hpd]; exact hg)
+            rw [hsc]; exact hg)
         have hst' : (runPS fl { hot := true, granular := false } ((Op.rcv f h n).size + 3) (mbFlush fl s) (.brecv 0 f h n [])).2
             = .brecv 0 f h n [] := hst
         simp only [] at ht
